@@ -901,6 +901,8 @@ class Evaluator:
         self.fn = fn
         self.bindings = bindings or {}
         self.pe = bool(bindings)
+        # generic parameters bound to concrete types (the function was specialised for a call `f::<T>(..)`)
+        self.tyenv = {k_[4:]: v_[1] for k_, v_ in self.bindings.items() if isinstance(k_, str) and k_.startswith("#ty:")}
         self._fold_memo = {}
         self.summ = Summary(fn)
         self.st = None
@@ -1297,6 +1299,7 @@ class Evaluator:
         prior_guarded = []
         diverged = []
         diverged_guarded = []
+        arm_states = []
         for idx, arm in enumerate(n["arms"]):
             d = pat_desc(arm["pat"])
             if concrete is not None:
@@ -1333,7 +1336,8 @@ class Evaluator:
             self._pc_pop()
             if self.st is not None:
                 results.append(((d, g), v))
-                out_state = self.st if out_state is None else merge_states(out_state, self.st, ("arm", n["id"], idx))
+                c_arm = ("lit", True) if (d[0] == "wild" and g is None) else (("matches", scrut, d) if g is None else ("bin", "&&", ("matches", scrut, d), g))
+                arm_states.append((c_arm, self.st))
             elif g is None:
                 diverged.append(d)
             else:
@@ -1342,6 +1346,9 @@ class Evaluator:
                 prior.append(d)
             else:
                 prior_guarded.append((d, g))       # an earlier arm that is taken when its pattern matches and its guard holds
+        # the state after the match: the first arm that matches decides (arms that left the function are not among the survivors)
+        for c_arm, st_arm in reversed(arm_states):
+            out_state = st_arm if (out_state is None or c_arm == ("lit", True)) else merge_states(st_arm, out_state, c_arm)
         self.st = out_state
         if out_state is None:
             return NEVER
@@ -1603,7 +1610,9 @@ class Evaluator:
 
         def sb(t):
             t = subst(t, mapping, memo)
-            if beta and self.st is not None and contains(t, lambda s_: s_[0] == "callv" and s_[1][0] == "closure"):
+            if beta and self.st is not None and contains(t, lambda s_: (s_[0] == "callv" and s_[1][0] == "closure") or
+                                                        (s_[0] == "call" and len(s_) == 3 and s_[2] and isinstance(s_[2][-1], tuple) and s_[2][-1]
+                                                         and s_[2][-1][0] in ("closure", "def"))):
                 saved = self.st
                 t2 = self.beta(t)
                 if self.st is None:
@@ -1663,9 +1672,19 @@ class Evaluator:
             if self.st is None:
                 return NEVER
             return ("hof", t[1].rsplit("::", 1)[-1], recv, body, tuple(self.beta(a, depth + 1) for a in t[2][1:-1]))
+        if t[0] == "call" and isinstance(t[1], str) and t[1].rsplit("::", 1)[-1] in HOF_METHODS and len(t[2]) >= 2 and t[2][-1][0] == "def" \
+                and isinstance(t[2][-1][1], str) and self.local_callee(t[2][-1][1]) is not None:
+            # .. or a function item: `xs.iter().position(is_wanted)`
+            recv = self.beta(t[2][0], depth + 1)
+            is_opt = any(k_ in t[1] for k_ in ("option::Option", "result::Result"))
+            carg = ("payload", recv) if is_opt else ("elem", recv)
+            body = self.do_call({"k": "call", "id": -1, "sp": None}, t[2][-1][1], None, [carg], [None], "call")
+            if self.st is None:
+                return NEVER
+            return ("hof", t[1].rsplit("::", 1)[-1], recv, body, tuple(self.beta(a, depth + 1) for a in t[2][1:-1]))
         if not any(isinstance(x, tuple) for x in t):
             return t
-        if not contains(t, lambda s_: s_[0] == "callv" or (s_[0] == "closure")):
+        if not contains(t, lambda s_: s_[0] == "callv" or (s_[0] == "closure") or (s_[0] == "def")):
             return t
         return tuple(self.beta(x, depth + 1) if isinstance(x, tuple) else x for x in t)
 
@@ -1707,6 +1726,23 @@ class Evaluator:
             cand = f"<{u_} as std::convert::From<{t_}>>::from"
             if self.local_callee(cand) is not None:
                 callee = cand
+        if isinstance(callee, str) and isinstance(inst, str) and inst.startswith("<") and self.local_callee(callee) is None \
+                and self.local_callee(inst) is not None:
+            callee = inst            # a method of a local trait on a concrete type: the compiler resolved the impl
+        if isinstance(callee, str) and self.tyenv and "::" in callee and self.local_callee(callee) is None:
+            # a method of a local trait called on a generic parameter that is bound to a concrete type here: the type's impl
+            selfty = None
+            if kind == "mcall":
+                selfty = str(n.get("rty", "")).replace("&mut ", "").replace("&", "").strip()
+            else:
+                ga = str(n.get("gargs", "")).strip("[]").split(",")[0].split("/")[0].strip()
+                selfty = ga or None
+            conc = self.tyenv.get(selfty) if selfty else None
+            if conc:
+                trait, meth = callee.rsplit("::", 1)
+                cand = f"<{conc} as {trait}>::{meth}"
+                if self.local_callee(cand) is not None:
+                    callee = cand
         target = self.local_callee(callee) if callee else None
         if isinstance(callee, str) and callee.endswith("::default") and not args:
             adt = self.prog.adt(str(n.get("ty", ""))) if hasattr(self.prog, "adt") else None
@@ -1724,7 +1760,20 @@ class Evaluator:
                 opaque = True
             if not opaque:
                 cs = None
-                if not self.pe:
+                tybind = {}
+                for i_, pty_ in enumerate(target.param_tys or []):
+                    g_ = str(pty_).replace("&mut ", "").replace("&", "").strip()
+                    if g_ and g_.isidentifier() and len(g_) <= 3 and i_ < len(argnodes) and argnodes[i_] is not None:
+                        at_ = str(argnodes[i_].get("ty", "")).replace("&mut ", "").replace("&", "").strip()
+                        at_ = self.tyenv.get(at_, at_)
+                        if at_ and "::" in at_ and not any(k_ in at_ for k_ in ("closure", "fn(", "{", "Fn(")):
+                            tybind["#ty:" + g_] = ("lit", at_)
+                if tybind and self.eng.api_forms().is_recursive(target):
+                    tybind = {}
+                if tybind:
+                    # a generic helper called at a concrete type: its trait-method calls are the type's impls
+                    cs = self.eng.specialise(target, tybind)
+                if cs is None and not self.pe:
                     # a function item handed to a local higher-order function: the callee is specialised for it, so that the indirect
                     # call is the called function's body (as if the caller had written a closure / the call itself)
                     fnargs = {}
@@ -1744,7 +1793,7 @@ class Evaluator:
                             fnargs = {}             # a recursive helper keeps its parameters (its self-calls are folded by the rules)
                     if fnargs:
                         cs = self.eng.specialise(target, fnargs)
-                if self.pe:
+                if cs is None and self.pe:
                     fargs = [self.fold(a) for a in args]
                     conc = {}
                     for i_, p_ in enumerate(target.params):
@@ -1764,7 +1813,7 @@ class Evaluator:
                             mapping[nm] = args[i]
                     term = subst(getattr(cs, "ret_full", None) or cs.ret, mapping)
                     self._beta_memo = {}
-                    passes_closure = any(isinstance(a_, tuple) and a_ and a_[0] == "closure" for a_ in args)
+                    passes_closure = any(isinstance(a_, tuple) and a_ and a_[0] in ("closure", "def") for a_ in args)
                     self._beta_pcs = {}
                     if passes_closure:
                         for pn_, a_ in mapping.items():
@@ -2125,7 +2174,32 @@ class Evaluator:
         return self.loop_expr(n, "loop")
 
     def e_while(self, n):
+        f = self._while_let_next_as_for(n)
+        if f is not None:
+            return self.loop_expr(f, "for")
         return self.loop_expr(n, "while")
+
+    def _while_let_next_as_for(self, n):
+        """`let mut it = <iter>; while let Some(p) = it.next() { body }` with `it` not touched by the body is `for p in <iter> { body }`."""
+        c = n.get("c") or {}
+        if c.get("k") != "letx":
+            return None
+        pat, e = c.get("pat") or {}, c.get("e") or {}
+        if not (pat.get("k") == "pts" and str(pat.get("ctor_of", "")).endswith("::Some") and len(pat.get("subs") or []) == 1):
+            return None
+        if not (e.get("k") == "mcall" and e.get("name") == "next" and not e.get("args") and str(e.get("def", "")).endswith("Iterator::next")):
+            return None
+        recv = e.get("recv") or {}
+        if not (recv.get("k") == "path" and recv.get("res") == "local"):
+            return None
+        lid = recv["lid"]
+        for x in walk(n["body"]):
+            if x.get("k") == "path" and x.get("res") == "local" and x.get("lid") == lid:
+                return None           # the body advances / inspects the iterator itself (e.g. a tokenizer's look-ahead): a genuine while loop
+        if self.st is None or lid not in self.st.env:
+            return None
+        return {"k": "for", "id": n["id"], "sp": n.get("sp"), "ty": n.get("ty"), "pat": pat["subs"][0], "iter": recv, "body": n["body"],
+                "loop_id": n.get("loop_id", n["id"]), "label": n.get("label")}
 
     def e_for(self, n):
         return self.loop_expr(n, "for")
